@@ -476,3 +476,93 @@ Definition trr_finish (lay : layout) (st : trr_state) (total : Z) : Z * list trr
   else (t_br st, []).
 
 Definition layout_size (lay : layout) : Z := fold_right (fun hd acc => fst hd + snd hd + acc) 0 lay.
+
+(* ------------------------------------------------------------------ TRR: every interleaving
+   of the writer with every observation of get_gromacs_frames.
+
+   The loop learns about the outside world at two kinds of points only: check_poll()
+   ("has GROMACS ended?") and os.path.getsize(trr_file) (a read is issued only for bytes a
+   previous getsize has shown to be on disk, and the file is append-only, so its result does
+   not depend on when it happens).  [trr_pc] names these points in program order; one
+   [trr_step] is the code between one observation and the next, given what the observation
+   returned: [size] = bytes on disk, [ended] = GROMACS has exited with return code 0 (a
+   non-zero code makes check_poll raise: a failed run, by design).  The writer may write
+   any amount and exit between ANY two observations: a schedule is the size on disk at every
+   observation made while GROMACS is still running (its length is the index of the first
+   observation that sees GROMACS ended) and the final size [fin].
+
+   [recheck = true] is the code as it is: in the wait-for-data loop, after check_poll() has
+   said "ended", the size is read AGAIN and the loop stops only if the data of the frame is
+   still incomplete.  [recheck = false] is the variant that decides with the size read BEFORE
+   check_poll() (refuted: it loses complete frames). *)
+Inductive trr_pc :=
+| PcPoll        (* top of the outer loop: check_poll() *)
+| PcHdrSize     (* poll was None: getsize, is the next header on disk? *)
+| PcDataSize    (* header read: getsize at the top of `while data is None` *)
+| PcGuardPoll   (* data not ready: check_poll() of the ended-guard *)
+| PcGuardSize   (* ... it has ended: the second getsize of the guard *)
+| PcFinSize     (* outer poll not None: getsize for `getsize - bytes_read > 0` *)
+| PcRemSize     (* read_remaining_trr: bytes_total = getsize *)
+| PcDone.       (* the generator has returned (stop_read = True) *)
+
+Record trr_m := mkM { m_pc : trr_pc; m_st : trr_state }.
+
+Definition trr_m_init : trr_m := mkM PcPoll trr_init.
+
+Definition trr_step (recheck : bool) (head : Z) (lay : layout) (m : trr_m) (size : Z) (ended : bool)
+  : trr_m * list trr_event :=
+  let st := m_st m in
+  match m_pc m with
+  | PcPoll => (mkM (if ended then PcFinSize else PcHdrSize) st, [])
+  | PcHdrSize =>
+    let '(st1, ev) := trr_observe head lay st size in
+    (mkM (if t_bad st1 then PcDone
+          else match t_pend st1 with Some _ => PcDataSize | None => PcPoll (* sleep *) end) st1, ev)
+  | PcDataSize =>
+    let '(st1, ev) := trr_observe head lay st size in
+    (mkM (match t_pend st1 with None => PcPoll (* yielded *) | Some _ => PcGuardPoll end) st1, ev)
+  | PcGuardPoll =>
+    (mkM (if ended then (if recheck then PcGuardSize else PcDone) else PcDataSize (* sleep *)) st, [])
+  | PcGuardSize =>
+    match t_pend st with
+    | Some (_, d) => (mkM (if size <? t_br st + d then PcDone else PcDataSize (* sleep *)) st, [])
+    | None => (mkM PcDone st, [])
+    end
+  | PcFinSize => (mkM (if size - t_br st >? 0 then PcRemSize else PcDone) st, [])
+  | PcRemSize =>
+    (* t_br becomes the offset after the last block read_remaining_trr consumed *)
+    let '(br, ev) := trr_remaining (S (length lay)) lay (t_br st) size in
+    (mkM PcDone (mkT br (t_hs st) None (t_bad st)), ev)
+  | PcDone => (m, [])
+  end.
+
+Fixpoint trr_drive (recheck : bool) (head : Z) (lay : layout) (m : trr_m) (obs : list (Z * bool))
+  : trr_m * list trr_event :=
+  match obs with
+  | [] => (m, [])
+  | (s, e) :: r => let '(m1, ev1) := trr_step recheck head lay m s e in
+                   let '(m2, ev2) := trr_drive recheck head lay m1 r in
+                   (m2, ev1 ++ ev2)
+  end.
+
+(* the program points at which the observations are consumed (correspondence: the real loop
+   makes the same sequence of poll()/getsize() calls) *)
+Fixpoint trr_pcs (recheck : bool) (head : Z) (lay : layout) (m : trr_m) (obs : list (Z * bool))
+  : list trr_pc :=
+  match obs with
+  | [] => []
+  | (s, e) :: r => m_pc m :: trr_pcs recheck head lay (fst (trr_step recheck head lay m s e)) r
+  end.
+
+(* after GROMACS has ended every observation is (fin, ended); the loop returns after at most
+   six of them *)
+Definition trr_world (sizes : list Z) (fin : Z) : list (Z * bool) :=
+  map (fun s => (s, false)) sizes ++ repeat (fin, true) 8.
+
+Definition trr_sched (recheck : bool) (head : Z) (lay : layout) (sizes : list Z) (fin : Z)
+  : trr_m * list trr_event :=
+  trr_drive recheck head lay trr_m_init (trr_world sizes fin).
+
+Definition trr_sched_pcs (recheck : bool) (head : Z) (lay : layout) (sizes : list Z) (fin : Z)
+  : list trr_pc :=
+  trr_pcs recheck head lay trr_m_init (trr_world sizes fin).
